@@ -37,96 +37,86 @@ type tsExtractor struct {
 	errIdx      int
 }
 
-// run explores fn from entry with the state known to be `start` (a constant name, or "?" for unknown).
+// run explores fn from entry with the state known to be `start` (a constant name, or "?" for unknown). Helpers of
+// fn are expanded at their call sites (core.Explorer), so a step of the protocol that was moved into a helper - the
+// duplicate test, the store that commits a value and resets the state - is still a step of fn.
 func (x *tsExtractor) run(start string) map[tsOutcome]bool {
 	out := map[tsOutcome]bool{}
-	type st struct {
-		b     *ssa.BasicBlock
-		known string
-	}
-	seen := map[st]bool{}
-	var walk func(b *ssa.BasicBlock, known string)
-	walk = func(b *ssa.BasicBlock, known string) {
-		s := st{b, known}
-		if seen[s] {
-			return
-		}
-		seen[s] = true
-		for _, in := range b.Instrs {
-			switch v := in.(type) {
-			case *ssa.Store:
-				if x.isStateAddr(v.Addr) {
-					if cv := core.ConstVal(v.Val); cv != nil {
-						known = x.constName[cv.ExactString()]
-						if known == "" {
-							known = "?"
-						}
-					} else {
+	ex := &core.Explorer{Root: x.fn}
+	ex.Step = func(in ssa.Instruction, known string, expanded bool) (string, bool) {
+		switch v := in.(type) {
+		case *ssa.Store:
+			if x.isStateAddr(v.Addr) {
+				if cv := core.ConstVal(v.Val); cv != nil {
+					known = x.constName[cv.ExactString()]
+					if known == "" {
 						known = "?"
 					}
-				}
-			case *ssa.Panic:
-				out[tsOutcome{"panic", ""}] = true
-				return
-			case *ssa.Return:
-				kind := "ok"
-				if x.errIdx >= 0 {
-					switch core.ResultNilness(v, x.errIdx) {
-					case core.NonNil:
-						ets := map[string]bool{}
-						for _, rv := range core.ResultValues(v, x.errIdx) {
-							valueErrorTypes(rv, 0, ets, map[ssa.Value]bool{})
-						}
-						var ns []string
-						for n := range ets {
-							ns = append(ns, n)
-						}
-						sort.Strings(ns)
-						kind = "reject:" + strings.Join(ns, "|")
-					case core.MaybeNil:
-						kind = "maybe"
-					}
-				}
-				out[tsOutcome{kind, known}] = true
-				return
-			case ssa.CallInstruction:
-				// a static call that may write the state field makes it unknown
-				if cal := v.Common().StaticCallee(); cal != nil && x.writesState(cal, 0) {
+				} else {
 					known = "?"
 				}
 			}
-		}
-		ifi := core.BlockIf(b)
-		if ifi == nil {
-			for _, s2 := range b.Succs {
-				walk(s2, known)
-			}
-			return
-		}
-		if cmp, ok := core.IfCompare(ifi); ok && (cmp.Op == token.EQL || cmp.Op == token.NEQ) && known != "?" {
-			xs, ys := cmp.X, cmp.Y
-			if core.ConstVal(xs) != nil {
-				xs, ys = ys, xs
-			}
-			if u, isLoad := xs.(*ssa.UnOp); isLoad && x.isStateAddr(u.X) {
-				if cv := core.ConstVal(ys); cv != nil {
-					eq := x.constName[cv.ExactString()] == known
-					if cmp.Op == token.NEQ {
-						eq = !eq
+		case *ssa.Panic:
+			out[tsOutcome{"panic", ""}] = true
+			return known, false
+		case *ssa.Return:
+			kind := "ok"
+			if x.errIdx >= 0 {
+				switch core.ResultNilness(v, x.errIdx) {
+				case core.NonNil:
+					ets := map[string]bool{}
+					for _, rv := range core.ResultValues(v, x.errIdx) {
+						valueErrorTypes(rv, 0, ets, map[ssa.Value]bool{})
 					}
-					if eq {
-						walk(b.Succs[0], known)
-					} else {
-						walk(b.Succs[1], known)
+					var ns []string
+					for n := range ets {
+						ns = append(ns, n)
 					}
-					return
+					sort.Strings(ns)
+					kind = "reject:" + strings.Join(ns, "|")
+				case core.MaybeNil:
+					kind = "maybe"
 				}
 			}
+			out[tsOutcome{kind, known}] = true
+			return known, false
+		case ssa.CallInstruction:
+			// an opaque static call that may write the state field makes it unknown
+			if cal := v.Common().StaticCallee(); cal != nil && !expanded && x.writesState(cal, 0) {
+				known = "?"
+			}
 		}
-		walk(b.Succs[0], known)
-		walk(b.Succs[1], known)
+		return known, true
 	}
-	walk(x.fn.Blocks[0], start)
+	ex.Edge = func(e core.Edge, known string) (string, bool) {
+		ifi := core.BlockIf(e.From)
+		if ifi == nil || known == "?" {
+			return known, true
+		}
+		cmp, ok := core.IfCompare(ifi)
+		if !ok || (cmp.Op != token.EQL && cmp.Op != token.NEQ) {
+			return known, true
+		}
+		xs, ys := cmp.X, cmp.Y
+		if core.ConstVal(xs) != nil {
+			xs, ys = ys, xs
+		}
+		u, isLoad := xs.(*ssa.UnOp)
+		if !isLoad || !x.isStateAddr(u.X) {
+			return known, true
+		}
+		cv := core.ConstVal(ys)
+		if cv == nil {
+			return known, true
+		}
+		eq := x.constName[cv.ExactString()] == known
+		if cmp.Op == token.NEQ {
+			eq = !eq
+		}
+		// Succs[0] is taken when the comparison holds
+		return known, (e.Succ == 0) == eq
+	}
+	ex.Run(start)
 	return out
 }
 
@@ -273,12 +263,8 @@ func runC12(c *core.Ctx) {
 
 	c.Rule("C12.finishhook", "every scalar/node assign of the reflection assembler (bindnode._assembler: AssignNull/Bool/Int/Float/String/Bytes/Link/Node, assignUInt) reaches a possibly-successful return only after consulting its finish hook (the step that commits the entry into the parent map / union) or after delegating to another assign that does", 8)
 	if asmT := p.NamedType("node/bindnode", "_assembler"); asmT != nil {
-		for _, m := range []string{"AssignNull", "AssignBool", "AssignInt", "AssignFloat", "AssignString", "AssignBytes", "AssignLink", "AssignNode", "assignUInt"} {
-			fn := p.Method(types.NewPointer(asmT), m)
-			if fn == nil || len(fn.Blocks) == 0 {
-				c.Undecided("node/bindnode._assembler."+m, "-", "method not found")
-				continue
-			}
+		for _, fn := range assignMethodsOf(p, asmT, true) {
+			m := fn.Name()
 			isHook := func(in ssa.Instruction) bool {
 				switch x := in.(type) {
 				case *ssa.UnOp:
@@ -288,7 +274,7 @@ func runC12(c *core.Ctx) {
 				case ssa.CallInstruction:
 					if cal := x.Common().StaticCallee(); cal != nil {
 						n := cal.Name()
-						if (strings.HasPrefix(n, "Assign") || n == "assignUInt" || n == "Copy") && cal != fn {
+						if (strings.HasPrefix(n, "Assign") || isAssignShaped(p, cal) || n == "Copy") && cal != fn {
 							return true
 						}
 					}
@@ -338,7 +324,7 @@ func checkAutomaton(c *core.Ctx, asmName, keyName, valName, stateName string, co
 	sort.Strings(states)
 	isStateAddr := func(v ssa.Value) bool {
 		fa, ok := v.(*ssa.FieldAddr)
-		return ok && core.FieldName(fa) == asmName+".state"
+		return ok && isStateField(fa) && strings.HasPrefix(core.FieldName(fa), asmName+".")
 	}
 	run := func(role, typeName, method string) {
 		t := p.NamedType("node/basicnode", typeName)
